@@ -1,5 +1,6 @@
 import Lean.Data.Json
 import DDV.Gen.Emit
+import DDV.Gen.ManTree
 
 /-!
   `ddv-driver gen` — one case line in (GEN_PROTOCOL.md §1), one answer line out:
@@ -187,14 +188,65 @@ def parseSyntax (s : String) : P Syntax :=
   | "dsl" => pure .dsl | "json" => pure .json | "yaml" => pure .yaml | "toml" => pure .toml
   | _ => throw s!"bad syntax {s}"
 
+/-- The tagged JSON dump of a parser's value tree (harness/src/gen/tree.rs). -/
+partial def parseMVal (j : Json) : P MVal :=
+  match j with
+  | .null => pure .null
+  | .bool b => pure (.bool b)
+  | .str s => pure (.str s)
+  | .arr a => do pure (.arr (← a.toList.mapM parseMVal))
+  | .num _ => throw "tree: bare number"
+  | .obj _ =>
+    match j.getObjVal? "i" with
+    | .ok (.str s) => (match s.toInt? with | some n => pure (.int n) | none => throw "tree: bad integer")
+    | _ =>
+      match j.getObjVal? "m" with
+      | .ok (.arr ps) => do
+        let kvs ← ps.toList.mapM fun p => match p with
+          | .arr #[.str k, v] => do pure (k, ← parseMVal v)
+          | _ => throw "tree: bad map entry"
+        pure (.map kvs)
+      | _ => match j.getObjVal? "f" with
+        | .ok _ => pure .float
+        | _ => pure .other
+
+/-- The manifest front end on the parser's own tree, when the case carries one the model can read
+    (`none`: DSL case, no tree, a text the parser rejected, or a map with a non-string key). -/
+def treeRoute (syn : Syntax) (j : Json) : P (Option (M Device)) :=
+  match syn, optKey j "tree" with
+  | .dsl, _ => pure none
+  | _, none => pure none
+  | _, some t =>
+    match t.getObjVal? "$parse_error", t.getObjVal? "$badkey" with
+    | .ok _, _ => pure none
+    | _, .ok _ => pure none
+    | _, _ => do pure (some (manTransform syn (← parseMVal t)))
+
 def runCase (j : Json) : P Json := do
   let id := (j.getObjVal? "id").toOption.getD Json.null
   let syn ← parseSyntax (← asStr (← reqKey j "syntax"))
   let dev ← asStr (← reqKey j "device_name")
-  let adef ← parseADef (← reqKey j "adef")
   let names := parseNames (← reqKey j "names")
-  let r := generate names syn dev adef
-  pure (Json.mkObj [("id", id), ("facts", facts names r)])
+  let treeOnly := match optKey j "tree_only" with | some (.bool true) => true | _ => false
+  let tree ← treeRoute syn j
+  -- the abstract route (ADEF lowered by `lowerManifest` / `lowerDsl`) and, for manifests, the key-level route
+  -- (`manTransform` on the tree the real parser built); the answer is the key-level one when there is one
+  let viaTree : Option (M Lir) := tree.map fun d => d >>= transformMir names dev
+  if treeOnly then
+    match viaTree with
+    | some r => pure (Json.mkObj [("id", id), ("facts", facts names r), ("route", Json.str "tree")])
+    | none => throw "tree_only case without a readable tree"
+  else
+    let adef ← parseADef (← reqKey j "adef")
+    let viaAdef := generate names syn dev adef
+    match viaTree with
+    | none => pure (Json.mkObj [("id", id), ("facts", facts names viaAdef), ("route", Json.str "adef")])
+    | some r =>
+      let fa := (facts names viaAdef).compress
+      let ft := (facts names r).compress
+      pure (Json.mkObj [("id", id), ("facts", facts names r), ("route", Json.str "tree"),
+                        ("routes_agree", Json.bool (fa == ft)),
+                        ("adef_route_facts", if fa == ft then Json.null else facts names viaAdef)])
 
 def step (line : String) : String :=
   match Json.parse line with
